@@ -3,7 +3,7 @@ from vlib import boot
 from vlib.engine import Outcome
 
 PROPERTY = 'C04'
-RULE = ('Same two-endpoint history generator as C01 plus user terminate() calls at arbitrary points and the '
+RULE = ('Same two-endpoint history generator as C01 plus user terminate() calls at arbitrary points (and an enumerated set of handshakes during which the virtual clock passes a configured keepalive interval) and the '
         'private-extension test mode on/off.  Oracle: a monitor automaton per direction over the octet log parsed by '
         'the independent RFC 9174 decoder: CH, SESS_INIT, then only XFER_*/KEEPALIVE/MSG_REJECT, at most one SESS_TERM, '
         'no START after own SESS_TERM; per transfer: contiguous segments, START first with Transfer-Length == sum of '
@@ -32,6 +32,24 @@ def budgets(tier):
 def strategy(tier):
     from vlib import tcpcl_machine as tm
     return tm.cases(max_ops=14 if tier == 'quick' else 24, terminate=True)
+
+
+def enumerate_cases(tier):
+    ''' Keepalive timers configured and a network that is slow while the two sides negotiate: the virtual clock moves
+    past the keepalive interval between scheduler steps of the handshake. '''
+    import itertools
+    for ka_a, ka_b, pattern, slow_at in itertools.product((0, 2), (0, 2), ([0], [1], [0, 1], [1, 0]), range(0, 6)):
+        if not (ka_a or ka_b):
+            continue
+        cfg = {'a': dict(seg_init=7, mru=7, keepalive=ka_a, idle=0), 'b': dict(seg_init=7, mru=7, keepalive=ka_b, idle=0),
+               'cap_ab': None, 'cap_ba': None, 'regime': 'fair', 'priv_ext': False}
+        ops = []
+        for step in range(6):
+            if step == slow_at:
+                ops.append(['wait', 2500])
+            ops.append(['run', pattern])
+        ops += [['wait', 2500], ['estab'], ['send', 'A', 10, 1], ['run', [0, 1] * 8]]
+        yield {'cfg': cfg, 'ops': ops}
 
 
 def pinned_cases():
